@@ -40,8 +40,10 @@ def build_network(net):
         return f(**net.get("site_kwargs", {}))
     else:
         raise ValueError(net["kind"])
-    for s in net["stations"]:
+    for k, s in enumerate(net["stations"]):
         nw.register_evse(build_evse(s["id"], s["evse"]), s["voltage"], s["phase"])
+        if k == net.get("query_after_first_registrations", -1) and hasattr(nw, "available_evses"):
+            nw.available_evses()      # the operator looks at the free spaces while the site is still being set up
     for c in net["constraints"]:
         # terms listed in the constraint's own (generated) order, not station order
         nw.add_constraint(sut.Current(dict(c["coeffs"])), c["limit"], name=c["name"])
